@@ -5,9 +5,10 @@ FUNCTIONS = ['base_client.BaseClient._reset', 'client.Client._send_packet',
              'async_client.AsyncClient._reset', 'async_client.AsyncClient._send_packet',
              'async_client.AsyncClient._trigger_event', 'async_client.AsyncClient.disconnect',
              'async_client.AsyncClient.send', 'async_client.AsyncClient._receive_packet',
-             'client.Client._read_loop_polling', 'async_client.AsyncClient._read_loop_polling']
+             'client.Client._read_loop_polling', 'async_client.AsyncClient._read_loop_polling',
+             'client.Client._read_loop_websocket', 'async_client.AsyncClient._read_loop_websocket']
 
 LEVEL_TEXT = 'packet-level lifecycle functions of both clients (Client and AsyncClient, one contract text) are verified: disconnect() always ends in state disconnected with the sid cleared, is a no-op on a client that is not connected, and on a connected client queues CLOSE then the sentinel and fires exactly one disconnect event with the given reason; send()/_send_packet() are no-ops unless connected; a CLOSE packet from the server disconnects; _reset gives the reusable state'
-LEVEL_NOTE = 'both clients\' polling read loops are under contract (when it returns the client is no longer connected; a connection it ends itself is reported by exactly one disconnect event with reason transport error before the reset, a CLOSE packet by one with reason server disconnect, no other synchronous event is fired; two escaping exceptions are known findings); connect(), _connect_polling/_connect_websocket, the WebSocket read loops (network glue over requests / websocket-client / aiohttp) are NOT under contract: the clauses about ConnectionError on refusal, adoption of the OPEN fields, task termination and wait() are not decided'
+LEVEL_NOTE = 'both clients\' read loops (polling and WebSocket) are under contract (when it returns the client is no longer connected; a connection it ends itself is reported by exactly one disconnect event with reason transport error before the reset, a CLOSE packet by one with reason server disconnect, no other synchronous event is fired; two escaping exceptions are known findings); connect(), _connect_polling/_connect_websocket (network glue over requests / websocket-client / aiohttp) are NOT under contract: the clauses about ConnectionError on refusal, adoption of the OPEN fields, task termination and wait() are not decided'
 NOT_DECIDED = ['connect() outcomes and exception classes', 'background task termination / wait()', 'known findings KF-C08-disconnect-before-loops(-async) and KF-C08-double-disconnect-(async)client']
 ASSUMPTIONS = [LEVEL_NOTE]
